@@ -80,7 +80,7 @@ func tableFromSx(s Sx) TableSpec {
 var litPool = []string{"a", "b", "ab", "a.b", "x", "users", "v1", "é", "a+b", "A"}
 var varNames = []string{"v", "id", "name", "w", "k"}
 var rxCurly = []string{`[0-9]+`, `[a-z]+`, `[A-Z][A-Z]`, `\d{1,3}`, `(?:foo|bar)`, `.*`, `ab`, `[a-z]*`, `^[0-9]+$`, `[^x]+`}
-var rxJsr = []string{`[0-9]+`, `[a-z]+`, `[A-Z][A-Z]`, `\d{1,3}`, `(?:foo|bar)`, `ab`, `(cat|dog)`, `(\d+)|(latest)`}
+var rxJsr = []string{`[0-9]+`, `[a-z]+`, `[A-Z][A-Z]`, `\d{1,3}`, `(?:foo|bar)`, `ab`, `(cat|dog)`, `(\d+)|(latest)`, `(?i)[a-z]+`, `v\(\d\)`}
 
 // the model counts the capture groups inside a variable's expression syntactically (Template.re_groups); that count
 // must be regexp's own for every expression the generators use
@@ -116,12 +116,12 @@ var mimePool = []string{"application/json", "application/xml", "application/zip"
 // values that satisfy / nearly satisfy each regex of the pools
 var rxGood = map[string][]string{
 	`[0-9]+`: {"12", "7", "007"}, `[a-z]+`: {"ab", "x", "foo"}, `[A-Z][A-Z]`: {"AB", "NL"}, `\d{1,3}`: {"1", "123"},
-	`(cat|dog)`: {"cat", "dog"}, `(\d+)|(latest)`: {"7", "latest", "42"},
+	`(cat|dog)`: {"cat", "dog"}, `(\d+)|(latest)`: {"7", "latest", "42"}, `(?i)[a-z]+`: {"Abc", "x", "QQ"}, `v\(\d\)`: {"v(1)", "v(7)"},
 	`(?:foo|bar)`: {"foo", "bar"}, `.*`: {"", "x", "a.b"}, `ab`: {"ab"}, `[a-z]*`: {"", "abc"}, `^[0-9]+$`: {"42"}, `[^x]+`: {"ab", "12"},
 }
 var rxNear = map[string][]string{
 	`[0-9]+`: {"1a", "a1", "x", ""}, `[a-z]+`: {"A", "1", "aB", ""}, `[A-Z][A-Z]`: {"A", "ABC", "ab"}, `\d{1,3}`: {"1234", "a", ""},
-	`(cat|dog)`: {"cow", "cats", "", "CAT"}, `(\d+)|(latest)`: {"latest7", "7x", "x", ""},
+	`(cat|dog)`: {"cow", "cats", "", "CAT"}, `(\d+)|(latest)`: {"latest7", "7x", "x", ""}, `(?i)[a-z]+`: {"1", "a1", ""}, `v\(\d\)`: {"v1", "v()", "v(12)"},
 	`(?:foo|bar)`: {"fo", "foobar", "baz"}, `.*`: {"é"}, `ab`: {"a", "xabx", "b"}, `[a-z]*`: {"A", "1"}, `^[0-9]+$`: {"4a", "a4"}, `[^x]+`: {"x", "xx", "axb"},
 }
 var valPool = []string{"x", "12", "ab", "foo", "AB", "é", "a.b", "x:get", "a", "b", "users", "x.foo", "q_x", "{v}", "a:b", "*", "x\ny", "a%2Fb", "%41b"}
@@ -291,7 +291,17 @@ func genTable(r *Rng, router int, maxWs int) (TableSpec, []genRoute) {
 		nroot := []int{0, 0, 1, 1, 1, 2, 2, 3}[r.Intn(8)]
 		var rootToks []tplTok
 		crossedRoot := false
-		if router == 1 && r.Pct(80) {
+		if w > 0 && r.Pct(22) {
+			// a root one token longer than the previous one (a variable or a literal below it), or the previous one without
+			// its last token: /docs and /docs/{id} in either order (they share the pattern the mux knows them by)
+			if len(prevRoot) > 0 && r.Pct(40) {
+				rootToks = append([]tplTok{}, prevRoot[:len(prevRoot)-1]...)
+			} else if r.Pct(60) {
+				rootToks = append(append([]tplTok{}, prevRoot...), tplTok{kind: 1, name: "e" + itoa(w)})
+			} else {
+				rootToks = append(append([]tplTok{}, prevRoot...), tplTok{kind: 0, text: r.Pick(litPool)})
+			}
+		} else if router == 1 && r.Pct(80) {
 			// RouterJSR311: mostly literal roots (the fragment C02/C03 are stated for)
 			for i := 0; i < nroot; i++ {
 				rootToks = append(rootToks, tplTok{kind: 0, text: r.Pick(litPool)})
@@ -1057,7 +1067,14 @@ func runPerm(raw Sx) (Sx, Sx) {
 	pr0 := &probe{}
 	_, kept, _ := buildContainer(t, pr0)
 	obs := Ls{}
-	obs = append(obs, func() Sx { pr := &probe{}; c, _, _ := buildContainer(kept, pr); return dispatchObs(c, pr, q) }())
+	// per build: the answer of Dispatch, and as 8th element the answer of ServeHTTP (the mux in front of dispatch is set
+	// up by the same registrations, in the same order)
+	both := func(c *restful.Container, pr *probe) Sx {
+		d := dispatchObs(c, pr, q)
+		*pr = probe{}
+		return append(append(Ls{}, sxList(d)...), serveObs(c, pr, q))
+	}
+	obs = append(obs, func() Sx { pr := &probe{}; c, _, _ := buildContainer(kept, pr); return both(c, pr) }())
 	usable := Ls{}
 	if len(kept.Services) != len(t.Services) {
 		perms = nil // permutations refer to a table that cannot be built as given
@@ -1070,7 +1087,7 @@ func runPerm(raw Sx) (Sx, Sx) {
 			continue // this order trips the mux panic (finding F4 / C11): not a C03 matter
 		}
 		usable = append(usable, p)
-		obs = append(obs, dispatchObs(c, pr, q))
+		obs = append(obs, both(c, pr))
 	}
 	o := NewOracles()
 	tabulateRouting(o, kept, q.Path)
